@@ -717,9 +717,12 @@ def c09_records(env, tree, avs=None, subs=True, seed=0):
     for path, node, o, alist in todo:
         ms, excs = [], {}
         cache = {}
-        for a in alist:
+        # the available width is also given implicitly: Measurement.get(console, r) measures against console.width
+        sm0 = minw_py(node)
+        defaults = [(w, True) for w in sorted({max(1, sm0), sm0 + 2, 17})] if not path else []
+        for a, implicit in [(x, False) for x in alist] + defaults:
             try:
-                mn, mx = env.Measurement.get(mconsole, o, a)
+                mn, mx = env.Measurement.get(env.console(a), o) if implicit else env.Measurement.get(mconsole, o, a)
             except Exception as e:
                 excs[type(e).__name__] = excs.get(type(e).__name__, 0) + 1
                 continue
